@@ -466,7 +466,8 @@ impl<T: Payload> ThreadCtx<T> {
                     let tg = v.tag();
                     (v, tg)
                 };
-                let mut vec: Vec<T> = Vec::with_capacity(3);
+                // spare room for 0, 1 or 2 more elements: drain_into has to grow the vector in most calls
+                let mut vec: Vec<T> = Vec::with_capacity(1 + (self.idx as usize % 3));
                 vec.push(s1);
                 let r = if h.is_async() { h.asy().drain_into(&mut vec) } else { h.sy().drain_into(&mut vec) };
                 let tags: Vec<Tag> = vec.iter().map(|v| v.tag()).collect();
